@@ -20,3 +20,12 @@ check("C19", "exploration",
       "runtime monitor: reference evaluator written from the statement, cross-validated against go/build.Context.MatchFile / go/build/constraint on the comparable sub-domain",
       "MatchFile: all names of 1-4 segments over 8 tokens x 4 extensions x 37 tag sets (exhaustive). ShouldBuild: generated leading comment blocks x all 256 subsets of an 8-tag vocabulary for the first contents and random subsets (with and without '*') for the rest.",
       "Trusted: checks/c19 reference evaluator (the statement's rules); go/build of Go 1.23 agrees with it on every cross-validated case (disagreement would be reported as inconclusive). Negated malformed terms and malformed terms under an 'ignore' tag are asserted by the statement evaluator only (go/build/constraint maps them to the tag 'ignore').")
+
+check("C15", "exploration",
+      "runtime monitor: before/after snapshot of a sandbox parent directory around the real txtar.Write + independent lexical name resolver; tree equality for the real txtar-c | txtar-x binaries",
+      "Thousands of generated archives with hostile entry names (., .., empty, absolute, climbing out and back in, duplicates) are written into a directory that has pre-existing files and canaries beside and above it; every path that appears, disappears or changes is attributed. Generated trees are archived and extracted by the real commands built from the tree under test and compared with the membership the documented rules give.",
+      "Trusted: the harness' snapshot/resolver code; x/tools txtar as marker oracle for the round-trip expectation. No symlinks inside the target directory; tree file names without newlines or leading/trailing blanks.")
+check("C20", "exploration",
+      "runtime monitor: expectations computed from the generated directory; archive/zip re-read of .zip responses; barrier-released concurrent first requests compared with the sequential expectation; Go race detector on the in-process server",
+      "Generated module directories (case-escaped paths, /vN, +incompatible, pseudo and non-canonical versions, .txt/.txtar/dir layouts, nested and dot files) are served by the real Server; .info/.mod/.zip/list of everything stored and 404 probes for everything not stored are requested first by 16-64 goroutines at once and then sequentially.",
+      "Trusted: x/tools txtar parser (what 'stored' means for archive layouts), archive/zip, net/http. Commit-hash requests are asserted only where exactly one stored version of the module has a hash. Race detector sees only the schedules that happened.")
